@@ -142,6 +142,10 @@ def install(e, record=()):
             yield path, Opaque('deref')
     S_.append((re.compile(r'<anchor_lang::prelude::(Account|InterfaceAccount)<.*> as Deref(Mut)?>::deref(_mut)?$'), deref_acct))
 
+    def deref_identity(e_, callee, args, path):
+        yield path, args[0]      # newtype wrappers around the spl account structs: same data
+    S_.append((re.compile(r'<anchor_spl::(token|token_interface|token_2022)::\w+ as Deref>::deref$|<TokenAccount as Deref>::deref$|<TokenAccountInterface as Deref>::deref$'), deref_identity))
+
     def key_of(e_, callee, args, path):
         a = acct_of(args[0])
         yield path, (a.key if isinstance(a, Acct) else I(T.var(nm('key'), 0, (1 << 256) - 1), 'pubkey'))
